@@ -1,1 +1,2 @@
+pub mod denote_fixtures;
 pub mod serde_names;
